@@ -106,7 +106,7 @@ theorem prog_initTail {e : Env} {as : State} {i : Nat} {k : W → Pl → W} {w :
   have h2 : Good e as i ((stopTx w).upd fun nd => { nd with cache := nd.cache.filter (fun x => x.1 != nd.bi) }) := by
     have rn := h1.rn
     refine ⟨h1.g, ⟨rn.my, rn.lens, rn.chain, rn.height, rn.phase, rn.pidx, rn.prep, rn.commit, rn.cv, rn.lastCv, ?_, rn.own⟩,
-      h1.outs, h1.st, h1.lt⟩
+      h1.outs, h1.blk, h1.st, h1.lt⟩
     intro hh box hb km hkm
     exact rn.cache hh box (List.mem_filter.mp hb).1 km hkm
   cases hb : ((stopTx w).nd.cache.find? (fun x => x.1 == (stopTx w).nd.bi)).map (·.2) with
